@@ -272,8 +272,8 @@ def run(ctx, coq_ok):
     jobs = []
     for k, (d, label, sql) in enumerate(items):
         want = (k % 4 == 0)
-        jobs.append((d, label, sql, want))
-    for (d, label, sql, _w), st, res in corpus.pmap("harness.treecheck", "parse_case", jobs):
+        jobs.append((d, label, sql, want, k % 3 == 1))   # a third of the parses with parse statistics switched on
+    for (d, label, sql, _w, _ps), st, res in corpus.pmap("harness.treecheck", "parse_case", jobs):
         if st != "ok":
             ctx.broken_obligation("harness worker crashed on %s/%s" % (d, label), res)
             continue
